@@ -141,6 +141,8 @@ var handCorpusC09 = []string{
 	"x = { a : 1, \"b\" = 2 }\n",
 	"x = ns :: f ( 1 )\n",
 	"b {\n}\nb { }\n",
+	"x = <<EOT\n${a}\nEOT\n",
+	"x = <<-EOT\n%{ if c }y%{ endif }\n  EOT\n",
 	"x = ! a && ! ( b )\n",
 }
 
@@ -180,6 +182,9 @@ func runC09(cx *lib.Ctx) {
 		var toks []lib.Tk
 		rd.BodyTokens(&toks, body)
 		src := lib.RenderChecked(toks, lib.RandomLayout(r))
+		if r.Chance(1, 3) {
+			src = withHeredocs(r, src)
+		}
 		if r.Chance(1, 10) {
 			src = strings.TrimRight(src, "\r\n")
 		}
@@ -241,4 +246,32 @@ func c09Windows(cx *lib.Ctx) {
 		}
 	}
 	cx.Res.Exhaustive = map[string]int{"windows_tried": count, "windows_valid": valid, "window_len": k, "representatives": len(reps)}
+}
+
+// withHeredocs appends attributes (and a block holding one) whose values are heredoc templates: plain and
+// flush, first line starting with literal text, an interpolation or a directive, nested interpolations.
+func withHeredocs(r *lib.Rand, src string) string {
+	var sb strings.Builder
+	sb.WriteString(src)
+	if !strings.HasSuffix(src, "\n") {
+		sb.WriteString("\n")
+	}
+	lines := []string{"${a}", "${a}${b}", "%{ if c }x%{ endif }", "%{ for v in l }${v}%{ endfor }", "text", "  indented ${ a } more", "", "${ {k = 1}.k }", "tab\there", "$${escaped} %%{also}", "a ${ \"q${b}\" } z", "${a ~} trailing"}
+	for k := 1 + r.Intn(2); k > 0; k-- {
+		op := "<<"
+		if r.Chance(1, 2) {
+			op = "<<-"
+		}
+		indent := strings.Repeat(" ", r.Intn(5))
+		fmt.Fprintf(&sb, "%shd%d%s=%s%sEOT\n", indent, k, strings.Repeat(" ", r.Intn(3)), strings.Repeat(" ", r.Intn(3)), op)
+		for j := r.Intn(4); j > 0; j-- {
+			sb.WriteString(lines[r.Intn(len(lines))])
+			sb.WriteString("\n")
+		}
+		sb.WriteString(indent + "EOT\n")
+	}
+	if r.Chance(1, 2) {
+		sb.WriteString("blk {\n  inner = <<EOT\n" + lines[r.Intn(len(lines))] + "\nEOT\n}\n")
+	}
+	return sb.String()
 }
